@@ -394,6 +394,84 @@ def c01(out, tier):
     return finish_mc(out, npaths, obl, len(states), [{"bounds": bounds}])
 
 
+def c14(out, tier):
+    TC, tok, prog, mir, ent, exe, exe_rel = tok_setup(out)
+    if not self_validate(out, tok, prog, exe, 300 if tier == "quick" else 1500, C.seed() + 5):
+        return finish_mc(out, 0, 0, 0, ["self-validation failed"])
+    # precondition: generated table == pinned snapshot + every proper prefix mapped to (0,0) (+ the empty key)
+    snap = {k_: tuple(v) for k_, v in json.load(open(os.path.join(C.VERIF, "spec", "entities_snapshot.json"))).items()}
+    want = dict(snap)
+    for k_ in snap:
+        for n in range(1, len(k_)):
+            want.setdefault(k_[:n], (0, 0))
+    want[""] = (0, 0)
+    gen = dict(prog.entities)
+    if gen != want:
+        diff = [k_ for k_ in set(gen) | set(want) if gen.get(k_) != want.get(k_)]
+        ex = sorted(diff)[0]
+        out.violation("generated NAMED_ENTITIES differs from the WHATWG table snapshot in %d keys, e.g. %r: generated %r, expected %r" % (
+            len(diff), ex, gen.get(ex), want.get(ex)), {"engine": "table", "key": ex, "generated": gen.get(ex), "expected": want.get(ex)},
+            "C14|table|%s" % ex)
+    out.extra["table_keys_compared"] = len(want)
+    ctxs = ["Data", ("RawData", "Rcdata"), ("AttributeValue", "DoubleQuoted"), ("AttributeValue", "SingleQuoted"), ("AttributeValue", "Unquoted")]
+    base = dict(BASE, discard_bom=False)
+    units = []
+    # numeric references
+    kq = 3 if tier == "quick" else 4
+    for st in ctxs:
+        for pre in ("&#", "&#x", "&#X"):
+            units.append({"state": st, "k": kq, "classes": [1] * kq, "base": base, "prefix": [ord(c) for c in pre], "entities": snap_ents(snap)})
+        # longer digit strings: fully symbolic hex digits (shifts are cheap for the solver) ...
+        hexfam = [("&#x", (48, 57), 5), ("&#x", (97, 102), 9), ("&#X", (65, 70), 9)] + ([("&#x", (48, 57), 6), ("&#x", (48, 57), 9)] if tier == "thorough" else [])
+        for pre, rng, d in hexfam:
+            if tier == "quick" and st not in ("Data", ("AttributeValue", "DoubleQuoted")):
+                continue
+            units.append({"state": st, "k": d + 1, "classes": [1] * (d + 1), "base": base, "prefix": [ord(c) for c in pre],
+                          "char_ranges": [rng] * d + [(None, None)], "entities": snap_ents(snap)})
+        # ... and decimal strings as concrete leading digits + symbolic trailing digits around every boundary the
+        # algorithm distinguishes (multiplying a fully symbolic 32-bit value by 10 eleven times is out of z3's reach)
+        decfam = [("&#", 3), ("&#1114", 3), ("&#55", 3), ("&#57", 3), ("&#6553", 1), ("&#42949672", 2), ("&#42949673", 2), ("&#429496", 4),
+                  ("&#99999999", 2)] + ([("&#", 4), ("&#1", 4), ("&#11141", 3), ("&#4294967", 3)] if tier == "thorough" else [])
+        for pre, d in decfam:
+            if tier == "quick" and st not in ("Data", ("AttributeValue", "DoubleQuoted")):
+                continue
+            units.append({"state": st, "k": d + 1, "classes": [1] * (d + 1), "base": base, "prefix": [ord(c) for c in pre],
+                          "char_ranges": [(48, 57)] * d + [(None, None)], "entities": snap_ents(snap)})
+    # named references
+    names = sorted(snap)
+    legacy = [n for n in names if not n.endswith(";")]
+    prefixy = [n for n in names if any(o != n and o.startswith(n) for o in names)]
+    rnd = __import__("random").Random(C.seed())
+    if tier == "quick":
+        sel = set(legacy) | set(prefixy) | set(rnd.sample(names, len(names) // 20))
+        sel = sorted(sel)
+        rnd.shuffle(sel)
+        sel = sel[:260]
+    else:
+        sel = names
+    kf = 1 if tier == "quick" else 2
+    for n in sel:
+        forms = {n, n[:-1]}
+        for f in sorted(forms):
+            for st in ctxs:
+                units.append({"state": st, "k": kf, "classes": [1] * kf, "base": base, "prefix": [38] + [ord(c) for c in f], "entities": snap_ents(snap)})
+    out.extra["names_checked"] = len(sel)
+    rnd.shuffle(units)
+    res = TC.run_units_fn(TC.unit_c01, units, mir, ent)
+    bounds = ("numeric: '&#', '&#x', '&#X' + %d unconstrained symbolic characters; 5..9 fully symbolic hex digits per digit class + symbolic follower; decimal strings = concrete leading digits + 1..4 symbolic digits around 0x80..0x9F, 0xD800, 0xFFFF, 0x10FFFF, 2^32 (wrap-around of the accumulator) + symbolic follower; 5 contexts (quick: 2 for the long strings); "
+              "named: %d of 2231 table names (quick: all 106 legacy names, every name that is a prefix of another, seeded sample) in the forms {exact, minus last character} + %d symbolic follower character(s), in 5 contexts; "
+              "generated table vs pinned snapshot: %d keys") % (kq, len(sel), kf, len(want))
+    out.extra["ref_paths"] = sum(r.get("ref_paths", 0) for r in res)
+    npaths, obl = tok_finish_c01(out, TC, tok, prog, res, exe, exe_rel, bounds)
+    out.assumptions += ["trusted base: /verif/spec/entities_snapshot.json (the table of the pinned commit; no network copy of entities.json is available in the sandbox)",
+                        "the reference uses the snapshot, not the generated table", "xml5ever's character references are checked by C15 (differentially), not against this oracle"]
+    return finish_mc(out, npaths, obl, len(ctxs), [{"bounds": bounds}])
+
+
+def snap_ents(snap):
+    return None if snap is None else {k_: tuple(v) for k_, v in snap.items()}
+
+
 def tag_can_complete(st):
     from mirsym import tok
     s = tok.state_spec(st)
@@ -437,7 +515,7 @@ def tok_finish_c01(out, TC, tok, prog, results, exe, exe_rel, bounds):
     return npaths, obl
 
 
-PROPS = {"C01": c01, "C07": c07, "C13": c13, "C03": c03, "C04": c04, "C08": c08, "C09": c09}
+PROPS = {"C01": c01, "C14": c14, "C07": c07, "C13": c13, "C03": c03, "C04": c04, "C08": c08, "C09": c09}
 
 
 def replay(path):
